@@ -60,6 +60,12 @@ def trimSuffixString (b : Bytes) : Bytes := (trimStringR b.reverse).reverse
 
 /-! ### avoidFlush / UnwriteEmptyObjectMember on bytes -/
 
+/-- The suffix table shared by avoidFlush (encode.go:243) and UnwriteEmptyObjectMember (encode.go:265-279):
+(second-to-last byte, last byte, number of value bytes that the unwrite removes = len of `null`, `""`, `{}`, `[]`).
+Tied to the literals of the Go source by `Props.C07.tie_avoidFlush_suffixes` / `tie_unwrite_literals`. -/
+def emptySuffixes : List (UInt8 × UInt8 × Nat) :=
+  [(0x6c, 0x6c, 4), (0x22, 0x22, 2), (0x7b, 0x7d, 2), (0x5b, 0x5d, 2)]
+
 /-- The `switch string(b[len(b)-2:])` of avoidFlush (encode.go:243): "ll", `""`, "{}", "[]".
 Argument: the reversed buffer. -/
 def endsEmptyR : List UInt8 → Bool
